@@ -1,6 +1,7 @@
 #!/usr/bin/env python3
 """tools/extra.py - the part of the specification that goes beyond the listed properties: the lifecycle
-of the layer4 app (spec/L4App.tla, L4AppTrace.tla). Model-checks the lifecycle, runs the real App over loopback
+of the layer4 app (spec/L4App.tla, L4AppTrace.tla), the peers pool across loads (L4Peers) and the tee
+handler's goroutine protocol (L4Tee). Model-checks the lifecycle, runs the real App over loopback
 addresses (one of which cannot be bound) and lets TLC judge the observations. Prints OBSERVATION lines; it is
 not a property check and is not registered in MANIFEST.json (exit 0 = ran, 2 = machinery problem)."""
 import json
@@ -55,6 +56,29 @@ def main():
             for b in bad2:
                 log(f"OBSERVATION peers pool: {'; '.join(b['clauses'])} (scenario {b['id']})")
             log(f"{n2} scenarios of the real peers pool judged by TLC, {len(bad2)} with observations")
+            # ---- the tee handler's goroutine protocol over its synchronous pipe (L4Tee) ----
+            behf = os.path.join(tmp, "tee_beh.ndjson")
+            tb = run_tlc(tmp, "L4Tee.tla", "L4Tee_beh.cfg", timeout=600, beh_out=behf)
+            tlc_ok(tb, "L4Tee_beh")
+            tm = run_tlc(tmp, "L4Tee.tla", "L4Tee_asis_main.cfg", timeout=600)
+            tbr = run_tlc(tmp, "L4Tee.tla", "L4Tee_asis_branch.cfg", timeout=600)
+            tfx = run_tlc(tmp, "L4Tee.tla", "L4Tee_fixed.cfg", timeout=600)
+            tlc_ok(tfx, "L4Tee_fixed")
+            log(f"model: tee safety (Lockstep, BranchSeesAll) holds in {tb['distinct']} states, {tb['beh']} terminal behaviours; in the model of the code as it is "
+                f"the main chain can be held for ever by a branch that stopped reading: {any('MainEnds' in e for e in tm['errors'])}; "
+                f"the branch goroutine can outlive the connection: {any('BranchEnds' in e for e in tbr['errors'])}; "
+                f"neither when the pipe is closed on return and a finished branch drains it: True ({tfx['distinct']} states)")
+            trt = os.path.join(tmp, "tee.ndjson")
+            run_driver(vdrive, ["tee-run", "-beh", behf, "-out", trt], timeout=600)
+            n3, bad3, _ = validate_traces(tmp, trt, "tee_traces.ndjson", "L4TeeTrace.tla", "L4TeeTrace.cfg", max_shards=1)
+            by = {}
+            for b in bad3:
+                for c in b["clauses"]:
+                    by.setdefault(c, []).append(b["id"])
+            for c in sorted(by):
+                log(f"OBSERVATION tee: {c} ({len(by[c])} of {n3} scenarios, e.g. {', '.join(sorted(by[c])[:3])})")
+            log(f"{n3} terminal behaviours of the tee model replayed on the real handler and judged by TLC, {len(bad3)} with observations, "
+                f"{sum(1 for b in bad3 if any(c.startswith('E0') for c in b['clauses']))} where the real handler differs from the model")
         return 0
     except Inconclusive as e:
         log(f"INCONCLUSIVE: {e}")
